@@ -212,6 +212,59 @@ def r_reach(E):
                     path, fn.lineno, f"{owner}.update_{x}"))
             elif len(res.samples) < 8:
                 res.samples.append({"context": f"{c}.update_{x}", "reads": f"{d}.{y}", "verdict": f"{d} reaches {c}"})
+    # holders of holders: a rule of class c that looks up its own holders T (modeling_obj_containers) *and their*
+    # holders is affected when a link is re-pointed to a T that was not linked before. That T's chain is built before
+    # the change is applied, when its reverse lookups are still empty: c is in it only if T names it itself, through
+    # the forward link T.l -> c, in modeling_objects_whose_attributes_depend_directly_on_me
+    def definite_successors(T):
+        owner, f = pm.find_method(T, "modeling_objects_whose_attributes_depend_directly_on_me")
+        if f is None:
+            return set()
+        per_return = []
+        for r in [n for n in ast.walk(f) if isinstance(n, ast.Return) and n.value is not None]:
+            names = set()
+            todo = [r.value]
+            while todo:
+                e = todo.pop()
+                if isinstance(e, ast.BinOp) and isinstance(e.op, ast.Add):
+                    todo += [e.left, e.right]
+                elif isinstance(e, ast.List):
+                    for el in e.elts:
+                        if isinstance(el, ast.Attribute) and isinstance(el.value, ast.Name) and el.value.id == "self":
+                            names.add(el.attr)
+                elif isinstance(e, ast.Attribute) and isinstance(e.value, ast.Call) and isinstance(e.value.func, ast.Name) \
+                        and e.value.func.id == "super" and e.attr == f.name:
+                    k2, f2 = pm.find_method(T, f.name, after=owner)
+                    if f2 is not None:
+                        todo += [x.value for x in ast.walk(f2) if isinstance(x, ast.Return) and x.value is not None]
+            per_return.append(names)
+        return set.intersection(*per_return) if per_return else set()
+
+    for (c, x), cx in E.contexts().items():
+        if cx is None or c == "System":
+            continue
+        if (c, "<containers>") not in {(k, l) for (k, l) in cx.links if l == "<containers>" and k in pm.mro(c) + [c]} \
+                and not any(l == "<containers>" and c in pm.subclasses(k) + [k] for (k, l) in cx.links):
+            continue
+        owner, fn = pm.find_method(c, "update_" + x)
+        for (T, l) in sorted(cx.links):
+            if l != "<containers>" or T not in pm.ALL or T == c:
+                continue
+            # T holds c through a single forward link, and is itself the target of some single link (can be re-pointed)
+            fwd = [a for (K, a), (kind, tg) in links.items() if K == T and kind == "one" and c in tg]
+            repointable = [(K2, l2) for (K2, l2), (kind, tg) in links.items() if kind == "one" and T in tg]
+            if not fwd or not repointable:
+                continue
+            res.instances += 1
+            if not (set(fwd) & definite_successors(T)):
+                K2, l2 = repointable[0]
+                res.findings.append(Finding(
+                    "R-REACH", f"{c}.update_{x} over holders of {T} (new target)",
+                    f"{c}.update_{x} looks up the {T} objects that hold it and then *their* holders; when {K2}.{l2} is "
+                    f"re-pointed to a {T} that had no holder yet, that {T}'s recomputation chain is built before the "
+                    f"change and reaches the {c} only if {T}.modeling_objects_whose_attributes_depend_directly_on_me "
+                    f"names self.{fwd[0]} itself — it does not, so the {c} that receives the new load is not recomputed",
+                    pm.path_of(owner), fn.lineno, f"{owner}.update_{x}"))
     res.breakdown = {"G": {k: sorted(v) for k, v in G.items()}, "one_link_chain_roles": sorted(one_roles),
                      "list_link_chain_roles": sorted(list_roles)}
     _undecided(E, res)
